@@ -10,6 +10,8 @@ import (
 	"regexp"
 	"strconv"
 	"strings"
+	"unicode"
+	"unicode/utf8"
 
 	"golang.org/x/tools/go/ssa"
 )
@@ -975,7 +977,45 @@ func nativeCall(fn *ssa.Function, args []value) (value, bool) {
 		if s, ok := args[0].(string); ok {
 			return int64(strings.IndexByte(s, byte(args[1].(int64)))), true
 		}
-	case "unicode.IsLetter", "unicode.IsDigit", "unicode.IsSpace", "unicode.IsUpper", "unicode.IsLower":
+	case "unicode.IsLetter", "unicode.IsDigit", "unicode.IsSpace", "unicode.IsUpper", "unicode.IsLower", "unicode.IsNumber", "unicode.IsPunct":
+		if r, ok := args[0].(int64); ok {
+			switch name {
+			case "unicode.IsLetter":
+				return unicode.IsLetter(rune(r)), true
+			case "unicode.IsDigit":
+				return unicode.IsDigit(rune(r)), true
+			case "unicode.IsSpace":
+				return unicode.IsSpace(rune(r)), true
+			case "unicode.IsUpper":
+				return unicode.IsUpper(rune(r)), true
+			case "unicode.IsLower":
+				return unicode.IsLower(rune(r)), true
+			case "unicode.IsNumber":
+				return unicode.IsNumber(rune(r)), true
+			case "unicode.IsPunct":
+				return unicode.IsPunct(rune(r)), true
+			}
+		}
+	case "unicode.ToLower", "unicode.ToUpper":
+		if r, ok := args[0].(int64); ok {
+			if name == "unicode.ToLower" {
+				return int64(unicode.ToLower(rune(r))), true
+			}
+			return int64(unicode.ToUpper(rune(r))), true
+		}
+	case "unicode/utf8.DecodeRuneInString":
+		if s, ok := args[0].(string); ok {
+			r, n := utf8.DecodeRuneInString(s)
+			return tuple{int64(r), int64(n)}, true
+		}
+	case "unicode/utf8.RuneCountInString":
+		if s, ok := args[0].(string); ok {
+			return int64(utf8.RuneCountInString(s)), true
+		}
+	case "unicode/utf8.ValidString":
+		if s, ok := args[0].(string); ok {
+			return utf8.ValidString(s), true
+		}
 	}
 	_ = hex.EncodeToString
 	return nil, false
